@@ -129,4 +129,16 @@ theorem findBestSlope_width_minimal (els : List (Nat × Nat))
         = numBits (maxDeviation (findBestSlope els).1 els) - 1 := by omega
     rw [this]; exact hlow
 
+theorem numBits_le_56 (n : Nat) (h : n < 2 ^ 56) : numBits n ≤ 56 := by
+  apply Nat.le_of_not_lt
+  intro hgt
+  have hpos : 0 < n := by
+    apply Nat.pos_of_ne_zero
+    intro e
+    rw [e] at hgt
+    simp [numBits] at hgt
+  have h1 := numBits_lower n hpos
+  have h2 : 2 ^ 56 ≤ 2 ^ (numBits n - 1) := Nat.pow_le_pow_right (by decide) (by omega)
+  omega
+
 end TantivyModel.SSTable
